@@ -11,7 +11,7 @@ import (
 	"golang.org/x/tools/go/ssa"
 )
 
-// ReceiverFront (C17.O6 receiver.answers-from-process): the lifecycle of a generation is decided in one place, the process
+// ReceiverFront (C17.O7 receiver.answers-from-process): the lifecycle of a generation is decided in one place, the process
 // service's session table (C17.O1-O5). The gRPC receiver in front of it must not answer a protocol message on its own:
 //
 //   - every nil-error return of a receiver endpoint lies past the nil-error edge of the process service's matching On<Step>
@@ -20,7 +20,7 @@ import (
 //   - the receiver type keeps no state of its own: outside its constructor nothing stores into its fields, updates or deletes
 //     from a map or sync.Map held in them, or writes an atomic of it.
 func (c *Ctx) ReceiverFront(prop string) {
-	rule := "C17.O6 receiver.answers-from-process"
+	rule := "C17.O7 receiver.answers-from-process"
 	hs := c.handlersIn(rule, "/handlers/receiver")
 	n := 0
 	impls := map[string]bool{}
